@@ -223,6 +223,12 @@ def run(chk, repo, tier):
                    found='UQ: %s; InvCovMat: %s' % (sorted(u), sorted(icm)))
     chk.need('R20.5', nblocks, 3, 'UQ blocks reachable from shipped '
                                   'libraries')
+    # the uncertainty block of a library assembled from several files is the
+    # one block given (Update hands it over without touching shared state)
+    from .. import reviewed as _rv
+    _rv.check(chk, 'R20.5', repo, LIB, 'GroupLibrary.Update',
+              'GroupLibrary.Update hands the single uncertainty block over '
+              'by rebinding, as reviewed (two blocks are an error)')
     # ---- the shipped uncertainty blocks ---------------------------------------
     from .. import dataaudit
     dataaudit.uq_consistency(chk, repo, 'D20.6')
